@@ -20,20 +20,20 @@ def plans(tier, opts):
                 dict(nsess=2, depth=3, predeleted=True, idle=False,
                      cmds=['EXPUNGE', 'UIDEXPUNGE101', 'STORE1+Del', 'NOOP',
                            'FETCHall', 'APPEND', 'STORE*-Del', 'MOVE1-Other',
-                           'UIDSTORE102+Seen', 'STORE3Flagged']),
+                           'UIDSTORE102+Flagged', 'STORE3Flagged']),
                 dict(nsess=2, depth=4, idle=False,
                      cmds=['STORE1+Del', 'EXPUNGE', 'APPEND', 'MOVE1-Other',
-                           'FETCHall', 'UIDFETCH1:*', 'NOOP', 'UIDSTORE102+Seen'])]
+                           'FETCHall', 'UIDFETCH1:*', 'NOOP', 'UIDSTORE102+Flagged'])]
     return [dict(nsess=2, depth=4),
             dict(nsess=2, depth=4, predeleted=True, idle=False,
                  cmds=['EXPUNGE', 'UIDEXPUNGE101', 'STORE1+Del', 'NOOP',
                        'FETCHall', 'APPEND', 'STORE*-Del', 'MOVE1-Other',
-                       'UIDSTORE102+Seen', 'STORE3Flagged']),
+                       'UIDSTORE102+Flagged', 'STORE3Flagged']),
             dict(nsess=3, depth=3, predeleted=True, idle=False,
                  cmds=['EXPUNGE', 'UIDEXPUNGE101', 'NOOP', 'STORE1+Del']),
             dict(nsess=2, depth=5, idle=False,
                  cmds=['STORE1+Del', 'EXPUNGE', 'APPEND', 'MOVE1-Other',
-                       'FETCHall', 'UIDFETCH1:*', 'NOOP', 'UIDSTORE102+Seen',
+                       'FETCHall', 'UIDFETCH1:*', 'NOOP', 'UIDSTORE102+Flagged',
                        'STORE2+Del.SILENT', 'SEARCHall']),
             dict(nsess=3, depth=3, idle=False),
             dict(nsess=2, depth=3, observer=True)]
